@@ -1,11 +1,11 @@
 #!/bin/sh
-# selftest/mk.sh <prop> <name> <file> <sed-expr>: make a mutant patch from a sed edit of a /repo file
+# selftest/mk.sh <prop> <name> <file> <sed-expr>: make a mutant patch from a sed edit of a /repo file (as committed at HEAD)
 set -e
 prop=$1; name=$2; file=$3; expr=$4
 tmp=$(mktemp -d)
 mkdir -p "$tmp/a/$(dirname $file)" "$tmp/b/$(dirname $file)"
-cp /repo/$file $tmp/a/$file
-sed "$expr" /repo/$file > $tmp/b/$file
+git -C /repo show HEAD:$file > $tmp/a/$file
+sed "$expr" $tmp/a/$file > $tmp/b/$file
 if cmp -s $tmp/a/$file $tmp/b/$file; then echo "sed expression changed nothing: $name" >&2; rm -rf $tmp; exit 1; fi
 mkdir -p /verif/selftest/$prop
 (cd $tmp && diff -u a/$file b/$file > /verif/selftest/$prop/$name.patch) || true
